@@ -5,6 +5,7 @@ import (
 	"errors"
 	"time"
 
+	"github.com/emitter-io/emitter/internal/event"
 	"github.com/emitter-io/emitter/internal/message"
 	"github.com/emitter-io/emitter/internal/network/mqtt"
 	"github.com/emitter-io/emitter/internal/provider/contract"
@@ -12,6 +13,7 @@ import (
 	"github.com/emitter-io/emitter/internal/provider/usage"
 	"github.com/emitter-io/emitter/internal/security"
 	"github.com/emitter-io/emitter/internal/security/license"
+	"github.com/emitter-io/emitter/internal/service/cluster"
 	"github.com/emitter-io/emitter/internal/service/history"
 	"github.com/emitter-io/emitter/internal/service/keygen"
 	"github.com/emitter-io/emitter/internal/service/link"
@@ -133,3 +135,49 @@ func VerifC03Entry(v *verifrt.T) {
 	_ = ssid
 	v.Reach("entry-point-called")
 }
+
+// VerifC03Spelling: a key is the exact string that was issued. The ban list is keyed by the
+// presented string, so any second spelling that still decrypts would walk past a ban:
+// padded, re-cased or otherwise altered presentations of a valid key (which the license
+// cipher - here the stand-in that knows exactly one string - does not decrypt) are refused,
+// banned or not; the issued spelling is allowed exactly when it is not banned.
+func VerifC03Spelling(v *verifrt.T) {
+	lic := &license.V1{User: 7, Sign: 9}
+	contracts := contract.NewSingleContractProvider(lic, usage.NewNoop())
+	k := security.Key(make([]byte, 24))
+	k.SetMaster(1)
+	k.SetContract(7)
+	k.SetSignature(9)
+	k.SetPermissions(security.AllowReadWrite)
+	k.SetTarget("#/")
+	ciph := &c03strict{key: k}
+	svc := &Service{contracts: contracts}
+	svc.keygen = keygen.New(ciph, contracts, svc)
+	banned := v.Bool("banned")
+	st := event.NewState("")
+	if banned {
+		b := event.Ban("K")
+		st.Add(&b)
+	}
+	sw := new(cluster.Swarm)
+	verifrt.SetUnexported(sw, "state", st)
+	svc.cluster = sw
+	spellings := []string{"K", "K ", " K", "K\n", "K\t", "\tK", "k", "K\x00", "KK"}
+	pres := spellings[v.Choice(len(spellings), "spelling")]
+	ch := security.ParseChannel([]byte(pres + "/a/"))
+	_, _, allowed := svc.Authorize(ch, security.AllowRead)
+	v.Reach("spelling-presented")
+	v.Assert(allowed == (pres == "K" && !banned), "C03.only-the-issued-spelling-and-only-unbanned")
+}
+
+// c03strict: the license cipher decrypts exactly the issued string (C20: every other string
+// of another length or alphabet is rejected, and distinct strings give distinct keys)
+type c03strict struct{ key security.Key }
+
+func (c *c03strict) DecryptKey(b []byte) (security.Key, error) {
+	if string(b) != "K" {
+		return nil, errors.New("cipher: the key provided is not valid")
+	}
+	return append(security.Key(nil), c.key...), nil
+}
+func (c *c03strict) EncryptKey(k security.Key) (string, error) { return "K", nil }
